@@ -6,7 +6,6 @@ From WTF Require Import Model.Validate Model.Text.
 Import ListNotations.
 Close Scope string_scope.
 
-Definition bs (s : string) : bytes := map (fun b => Byte.to_N b) (list_byte_of_string s).
 
 Fixpoint has_suffix_rev (rsuf rs : bytes) : bool :=
   match rsuf, rs with
